@@ -146,6 +146,18 @@ def run_job(job, rec):
             ya, sa = float(y[0]), float(s[0])
         elif form == "int":
             ya, sa = y.astype(np.int64), s.astype(np.int64)
+            if rng.random() < 0.6:
+                # the narrowest integer type that holds the values (detector counts come as uint8 / int16 / uint16 / int32 arrays)
+                def narrow(a, kinds):
+                    for dt in kinds:
+                        ii = np.iinfo(dt)
+                        if a.min() >= ii.min and a.max() <= ii.max:
+                            return a.astype(dt)
+                    return a
+
+                ya = narrow(ya, [np.int8, np.int16, np.int32])
+                sa = narrow(sa, [np.uint8, np.int16, np.uint16, np.int32, np.uint32])
+                rec.count(f"forms:int:{ya.dtype}/{sa.dtype}")
         elif form == "intlist":
             ya, sa = [int(v) for v in y], [int(v) for v in s]
         elif form == "f32":
